@@ -547,3 +547,8 @@ T("fixes.swap_if_else",
   "def f(a, b):\n    if not (a < b) or a == 3:\n        pass\n    else:\n        return 'else'\n    return 'body'\nprint([f(a, b) for a in (1, 2, 3) for b in (1, 2, 3)])\n")
 T("fixes.early_continue",
   "out = []\nfor a in (0, 1):\n    for b in (0, 1):\n        if a and not b:\n            out.append(1)\n            out.append(2)\n            out.append(3)\n            out.append(4)\n            out.append(5)\n            out.append((a, b))\nprint(out)\n")
+# witnesses of repaired defects (must pass from now on)
+T("fixes.fix_if_assign",   # F02-7
+  "def f(a, b):\n    if a:\n        v = 5\n    elif b:\n        v = True\n    else:\n        v = False\n    return v\nprint(f(1, 1), f(0, 1), f(0, 0))\n")
+T("fixes.early_continue",  # F02-10
+  "out = []\nfor i in range(2):\n    if i >= 0:\n        for j in range(2):\n            if j >= 0:\n                out.append(1)\n                out.append(2)\n                out.append(3)\n                out.append(4)\n                out.append(5)\n                out.append(6)\n        out.append(7)\n        out.append(8)\n        out.append(9)\n        out.append(10)\n        out.append(11)\nprint(out)\n")
